@@ -1,5 +1,6 @@
 import EgVerif.Proofs.Syncer
 import EgVerif.Proofs.SyncerIR
+import EgVerif.Proofs.SyncerCheck
 import EgVerif.Gen.FactsC19
 import EgVerif.Gen.FactsC19IR
 /-!
@@ -609,5 +610,229 @@ example : (crun Sn 0 (some 0) (awayx ++ backx)).2.recvd.getLast? = some (Sn 13) 
 /-- the events processed: 13 writes, 10 watch events (the 10th blocks in its send; the 11th–13th and two
 ticks arrive while blocked and are not processed), and the tick after the consumer came back -/
 example : (effective Sn (cstart Sn 0 (some 0)) (awayx ++ backx)).length = 13 + 10 + 1 := by decide
+
+/-! ## Audit repair (notes/AUDIT.md, C19 item 13; engineer mux)
+
+(a) The judge's verdict is `Spec.check` (`real`, `differ`, `converged`), which no theorem mentioned, and it is
+strictly stronger than `validRun` (it wants indices `≥ pre`): it is accepted on the model's own behaviour
+exactly under the linearizable-read hypothesis `linLoop` (what etcd's `Get` gives). Helper lemmas
+(`mapEqB_iff`, `assign_complete`, `differ_iff`): `Proofs/SyncerCheck.lean`.
+(b) `snapshots_real` is true by construction of the model (`pullCompareSend` pushes `(i, S i)`); the
+statement with content is about the *generated* closure: whatever the pull oracle answers, it only ever
+sends what a pull returned (`generated_sends_only_pulled`). -/
+
+/-- all snapshots carry an index `≥ pre` and the store never runs behind `pre` -/
+def LowInv (pre : Nat) (st : St) : Prop := pre ≤ st.cur ∧ ∀ p ∈ st.sentRev, pre ≤ p.1
+
+theorem low_pull {S : Nat → Data} {pre : Nat} {st : St} (h : LowInv pre st) (r : Option Nat)
+    (hr : ∀ i, r = some i → i = st.cur) : LowInv pre (pullCompareSend S st r) := by
+  cases r with
+  | none => exact h
+  | some i =>
+    have hi := hr i rfl
+    unfold pullCompareSend
+    simp only
+    split
+    · refine ⟨h.1, fun p hp => ?_⟩
+      rcases List.mem_cons.mp hp with rfl | hp
+      · have := h.1; simp only; omega
+      · exact h.2 p hp
+    · exact ⟨h.1, h.2⟩
+
+theorem low_loop {S : Nat → Data} {pre : Nat} : ∀ (evs : List Ev) {st : St}, LowInv pre st →
+    linLoop S st evs = true → LowInv pre (loop S st evs)
+  | [], _, h, _ => h
+  | e :: es, st, h, hl => by
+    simp only [linLoop, Bool.and_eq_true] at hl
+    refine low_loop es ?_ hl.2
+    cases e with
+    | write => exact ⟨Nat.le_succ_of_le h.1, h.2⟩
+    | tick r => exact low_pull h r (fun i hi => by subst hi; simpa using hl.1)
+    | watchEvent r => exact low_pull h r (fun i hi => by subst hi; simpa using hl.1)
+    | watchCancel => exact ⟨h.1, h.2⟩
+    | progress => exact h
+
+/-- newest-first `Differs` is oldest-first `DiffersFrom []` of the delivered maps -/
+theorem differsFrom_append_single : ∀ (prev : Data) (xs : List Data) (d : Data),
+    DiffersFrom prev (xs ++ [d]) ↔ DiffersFrom prev xs ∧ ¬ MapEq ((xs.getLast?).getD prev) d
+  | prev, [], d => by simp [DiffersFrom]
+  | prev, x :: xs, d => by
+    simp only [List.cons_append, DiffersFrom, differsFrom_append_single x xs d]
+    have : ((x :: xs).getLast?).getD prev = (xs.getLast?).getD x := by
+      cases xs with
+      | nil => rfl
+      | cons y ys =>
+        rw [List.getLast?_cons_cons]
+        cases hl : (y :: ys).getLast? with
+        | none => simp at hl
+        | some z => rfl
+    rw [this, and_assoc]
+
+theorem differsFrom_of_differs : ∀ (l : List (Nat × Data)), Differs l →
+    DiffersFrom [] (l.reverse.map Prod.snd)
+  | [], _ => trivial
+  | [(i, d)], h => by simpa [DiffersFrom, Differs] using h
+  | (i2, d2) :: (i1, d1) :: rest, h => by
+    simp only [Differs] at h
+    have ih := differsFrom_of_differs ((i1, d1) :: rest) h.2
+    have : ((i2, d2) :: (i1, d1) :: rest).reverse.map Prod.snd =
+        (((i1, d1) :: rest).reverse.map Prod.snd) ++ [d2] := by simp
+    rw [this, differsFrom_append_single]
+    refine ⟨ih, ?_⟩
+    have hl : ((((i1, d1) :: rest).reverse.map Prod.snd).getLast?).getD [] = d1 := by simp
+    rw [hl]; exact h.1
+
+/-- **The judge's `check` accepts the model — `real` and `differ`.** `states` are the store states the judge
+replays (`S i = states.getD i []`, all maps), the run is valid with linearizable reads (initial pull failed or
+read the state current at start; every later successful pull reads the current state) and never reads beyond
+the replayed history. Then the delivered snapshots can be assigned non-decreasing indices `≥ pre`
+(`assign` succeeds) and consecutive snapshots differ, the first from the empty map. -/
+theorem check_accepts_model (states : List Data) (hmap : ∀ d ∈ states, IsMap d) (pre : Nat) (r0 : Option Nat)
+    (evs : List Ev) (hr0 : ∀ i, r0 = some i → i = pre)
+    (hv : validRun (fun i => states.getD i []) pre r0 evs = true)
+    (hlin : linLoop (fun i => states.getD i []) (pullCompareSend (fun i => states.getD i []) (St.start pre) r0) evs = true)
+    (hlen : pre + evs.count Ev.write < states.length) :
+    (check states pre ((sent (run (fun i => states.getD i []) pre r0 evs)).map Prod.snd)).real = true ∧
+    (check states pre ((sent (run (fun i => states.getD i []) pre r0 evs)).map Prod.snd)).differ = true := by
+  have hS : ∀ i, IsMap ((fun i => states.getD i []) i) := by
+    intro i
+    simp only [List.getD_eq_getElem?_getD]
+    cases h : states[i]? with
+    | none => simp [IsMap, keys]
+    | some d => exact hmap d (List.mem_of_getElem? h)
+  generalize hSdef : (fun i => states.getD i []) = S at *
+  have hpt : ∀ j, S j = states.getD j [] := fun j => by rw [← hSdef]
+  have inv := inv_run hS pre r0 evs hv
+  have hreal := snapshots_real hS pre r0 evs hv
+  have hmono := monotone hS pre r0 evs hv
+  have h0 : LowInv pre (St.start pre) := ⟨Nat.le_refl pre, fun p hp => by simp [St.start] at hp⟩
+  have hlow : LowInv pre (run S pre r0 evs) :=
+    low_loop evs (low_pull (S := S) h0 r0 (fun i hi => hr0 i hi)) hlin
+  have hcur : (run S pre r0 evs).cur = pre + evs.count Ev.write := run_cur S pre r0 evs
+  constructor
+  · -- real
+    simp only [check]
+    refine assign_complete states ((sent (run S pre r0 evs)).map Prod.fst) _ pre (by simp) ?_ ?_
+    · intro k h1 h2
+      simp only [List.length_map] at h1
+      simp only [List.getElem_map]
+      have hmem : (sent (run S pre r0 evs))[k] ∈ sent (run S pre r0 evs) := List.getElem_mem _
+      obtain ⟨hval, hle⟩ := hreal _ hmem
+      refine ⟨hlow.2 _ (List.mem_reverse.mp hmem), ?_⟩
+      have hlt : (sent (run S pre r0 evs))[k].1 < states.length := by omega
+      refine ⟨states[(sent (run S pre r0 evs))[k].1], by simp [hlt], ?_⟩
+      have hSi : S (sent (run S pre r0 evs))[k].1 = states[(sent (run S pre r0 evs))[k].1] := by
+        rw [hpt]
+        simp only [List.getD_eq_getElem?_getD, List.getElem?_eq_getElem hlt, Option.getD_some]
+      rw [hval, hSi]
+      exact mapEqB_refl (hmap _ (List.getElem_mem _))
+    · exact hmono.imp (fun h => Nat.le_of_lt h)
+  · -- differ
+    simp only [check]
+    have hd := differsFrom_of_differs _ (consecutive_differ hS pre r0 evs hv)
+    refine (differ_iff [] _ (by simp [IsMap, keys]) ?_).mpr hd
+    intro d hdm
+    obtain ⟨p, hp, rfl⟩ := List.mem_map.mp hdm
+    rw [(hreal p hp).1]; exact hS _
+
+/-- **… and `converged`**, under the fairness hypothesis of `converges_fair` (some successful pull after the
+last write) when the replayed history ends with the run's last write. -/
+theorem check_converged_model (states : List Data) (hmap : ∀ d ∈ states, IsMap d) (pre : Nat) (r0 : Option Nat)
+    (evs1 : List Ev) (e : Ev) (evs2 : List Ev)
+    (hv : validRun (fun i => states.getD i []) pre r0 (evs1 ++ e :: evs2) = true)
+    (hlin : linLoop (fun i => states.getD i []) (pullCompareSend (fun i => states.getD i []) (St.start pre) r0)
+      (evs1 ++ e :: evs2) = true)
+    (hok : okPull e = true) (hw : Ev.write ∉ evs2)
+    (hlen : pre + (evs1 ++ e :: evs2).count Ev.write + 1 = states.length) :
+    (check states pre ((sent (run (fun i => states.getD i []) pre r0 (evs1 ++ e :: evs2))).map Prod.snd)).converged
+      = true := by
+  have hS : ∀ i, IsMap ((fun i => states.getD i []) i) := by
+    intro i
+    simp only [List.getD_eq_getElem?_getD]
+    cases h : states[i]? with
+    | none => simp [IsMap, keys]
+    | some d => exact hmap d (List.mem_of_getElem? h)
+  obtain ⟨hm, _⟩ := converges_fair hS pre r0 evs1 e evs2 hv hlin hok hw
+  have hreal := snapshots_real hS pre r0 _ hv
+  generalize hst : run (fun i => states.getD i []) pre r0 (evs1 ++ e :: evs2) = st at *
+  simp only [check]
+  -- the consumer's final view is `view st`
+  have hview : finalView ((sent st).map Prod.snd) = view st := by
+    unfold finalView sent view
+    cases hsr : st.sentRev with
+    | nil => simp
+    | cons hd tl => obtain ⟨i, d⟩ := hd; simp
+  -- the last replayed state is `S n`
+  have hlast : (states.getLast?).getD [] = states.getD (pre + (evs1 ++ e :: evs2).count Ev.write) [] := by
+    rw [List.getLast?_eq_getElem?]
+    have : states.length - 1 = pre + (evs1 ++ e :: evs2).count Ev.write := by omega
+    rw [this, List.getD_eq_getElem?_getD]
+  rw [hview, hlast]
+  have hvm : IsMap (view st) := by
+    unfold view
+    split
+    · simp [IsMap, keys]
+    · rename_i i d tl heq
+      have := (hreal (i, d) (by simp [sent, heq])).1
+      simp only at this; rw [this]; exact hS i
+  exact (mapEqB_iff hvm (hS _)).mpr hm
+
+/-- `check` is strictly stronger than `validRun`: a stale initial read (index 1 when 2 writes preceded the
+start) is a valid run of the model, but the judge's `real` rejects it — hence the hypothesis `linLoop` /
+`hr0` above is necessary, not a convenience. -/
+example : validRun (fun i => [[], [("k", some ⟨"k", "a"⟩)], [("k", some ⟨"k", "b"⟩)]].getD i []) 2 (some 1) [] = true ∧
+    (check [[], [("k", some ⟨"k", "a"⟩)], [("k", some ⟨"k", "b"⟩)]] 2
+      ((sent (run (fun i => [[], [("k", some ⟨"k", "a"⟩)], [("k", some ⟨"k", "b"⟩)]].getD i []) 2 (some 1) [])).map Prod.snd)).real
+      = false := by decide
+/-- non-vacuity: a linearizable run over three replayed states; `check` accepts all three parts -/
+example :
+    let states : List Data := [[], [("k", some ⟨"k", "a"⟩)], [("k", some ⟨"k", "b"⟩)]]
+    let S := fun i => states.getD i []
+    let evs := [Ev.write, Ev.watchEvent (some 1), Ev.write, Ev.tick none, Ev.tick (some 2)]
+    validRun S 0 (some 0) evs = true ∧ linLoop S (pullCompareSend S (St.start 0) (some 0)) evs = true ∧
+    (check states 0 ((sent (run S 0 (some 0) evs)).map Prod.snd)).real = true ∧
+    (check states 0 ((sent (run S 0 (some 0) evs)).map Prod.snd)).differ = true ∧
+    (check states 0 ((sent (run S 0 (some 0) evs)).map Prod.snd)).converged = true ∧
+    (sent (run S 0 (some 0) evs)).map Prod.fst = [1, 2] := by decide
+
+/-- **No phantom state, on the generated code**: one invocation of the translated closure
+`pullCompareSend` — whatever the pull oracle `pl` answers — leaves `sent` unchanged or adds exactly the map
+the pull returned, and `data` is the old `data` or that map. -/
+theorem generated_sends_only_pulled (pl : String → Bool → Option Data) (key : String) (pfx : Bool)
+    (data : Data) (sent0 : List Data) :
+    Gen.FactsC19IR.extractionFailed = false ∧
+    ((Gen.FactsC19IR.pullCompareSendIR pl key pfx data sent0) = (data, sent0) ∨
+      ∃ d, pl key pfx = some d ∧ Gen.FactsC19IR.pullCompareSendIR pl key pfx data sent0 = (d, d :: sent0)) := by
+  refine ⟨by decide, ?_⟩
+  unfold Gen.FactsC19IR.pullCompareSendIR Gen.FactsC19IR.pullE
+  cases h : pl key pfx with
+  | none => left; simp
+  | some d =>
+    by_cases heq : isDataEqual data d = true
+    · left; simp [heq]
+    · right
+      have : isDataEqual data d = false := by simpa using heq
+      exact ⟨d, rfl, by simp [this]⟩
+
+/-- A whole life of the generated closure (the initial call and one per tick / watch event, each with its
+own pull answer): **every snapshot ever handed to `send` is a map some pull returned** — no invented,
+merged or partial state, by the code itself and not by construction of a model. -/
+def generatedRun (key : String) (pfx : Bool) : List (String → Bool → Option Data) → Data × List Data → Data × List Data
+  | [], x => x
+  | pl :: pls, x => generatedRun key pfx pls (Gen.FactsC19IR.pullCompareSendIR pl key pfx x.1 x.2)
+
+theorem generated_snapshots_real (key : String) (pfx : Bool) :
+    ∀ (pls : List (String → Bool → Option Data)) (x : Data × List Data),
+      ∀ d ∈ (generatedRun key pfx pls x).2, d ∈ x.2 ∨ ∃ pl ∈ pls, pl key pfx = some d
+  | [], x, d, hd => Or.inl hd
+  | pl :: pls, x, d, hd => by
+    rcases generated_snapshots_real key pfx pls _ d hd with h | ⟨pl', hpl', hd'⟩
+    · rcases (generated_sends_only_pulled pl key pfx x.1 x.2).2 with h2 | ⟨d2, hd2, h2⟩
+      · rw [h2] at h; exact Or.inl h
+      · rw [h2] at h
+        rcases List.mem_cons.mp h with rfl | h
+        · exact Or.inr ⟨pl, List.mem_cons_self, hd2⟩
+        · exact Or.inl h
+    · exact Or.inr ⟨pl', List.mem_cons_of_mem _ hpl', hd'⟩
 
 end EgVerif.C19
